@@ -24,4 +24,11 @@ finally:
     subprocess.run(["git", "-C", "/repo", "checkout", "--", "."], check=False)
     st = subprocess.run(["git", "-C", "/repo", "status", "--porcelain"], capture_output=True, text=True).stdout.strip()
     print("repo restored:", "clean" if not st else "NOT CLEAN: " + st)
+    # bring the tools and the regenerated facts back in sync with the restored tree
+    sys.path.insert(0, V)
+    from vlib import core
+    try:
+        core.build_tools(); core.gen_facts()
+    except Exception as e:
+        print("resync failed:", e)
 print(json.dumps({p: bool(v) for p, v in res.items()}))
